@@ -63,6 +63,12 @@ checks = {
  "C05": ("model_checking", "xstate", E2,
          "Explicit-state BFS over the sender/receiver operation alphabet (EncryptFRMPayload, EncryptFOpts, SetMIC, Transfer = marshal + fresh unmarshal, SetFCnt32, ValidateMIC, DecryptFOpts, DecryptFRMPayload and their wrong-key / wrong-parameter variants) from 144 initial frames, depth 8 quick / 10 thorough, on real frames paired with the reference model's abstract frame stepped in lock-step: every error/no-error, every Validate verdict, the serialisation after every transition and the decoded command lists are compared. Tamper part: every single-bit flip of every serialised frame and every single-parameter mismatch (all key bits, upper FCnt bits, ConfFCnt, txDR, txCh, version, direction) against the specification MIC of the received content.",
          "Fixed distinguishing keys/counters (bit walks in the tamper part); depth bound 8/10 covers the canonical 8-step history and every reordering / repetition of its steps up to that length."),
+ "C10": ("model_checking", "sched", E3 + "; " + E2,
+         "Schedules: stateless exploration of all interleavings with up to 3 (quick) / 5 (thorough) preemptions of closed 3-thread scenarios (registration of a proprietary MAC command || uplink decode of 80 aa bb 02 || lookup + downlink decode; two MIC/encrypt threads on private frames || registration; two application-layer decoders) on the real code under a cooperative scheduler; scheduling points at every operation of the sync shim and every (possibly aliased) access to a package-level variable that is written in the package, inserted by an AST overlay generated from /repo's current tree; vector-clock happens-before race check, deadlock / lock misuse detection, per-schedule linearizability and result-equals-sequential oracles, failing schedules replayed twice. Histories: reuse of every decodable type (85 types, all decode sequences of length <= 3 over a 5-6 string alphabet) and explicit-state BFS over band mutators with an untouched second instance compared in every state. Inputs: aliasing of decode input / encode output, guard bytes around encrypted slices, inspect-only operations.",
+         "Memory-model effects below Go's happens-before are not modelled; 3 threads per scenario; heap objects are not shared between harness threads by construction, package-level state is intercepted by the overlay (variables never written outside their declaration are immutable and not instrumented). The runtime race detector is not the deciding oracle (the cooperative scheduler blinds it)."),
+ "C16": ("model_checking", "sched", E3 + "; " + E1,
+         "Requests through the real http.Handler judged by an independent device + network-server model (join-accept decryption and MIC, echoed fields, 1.0/1.1 session-key derivations, RFC 3394 unwrap): crypto-tuple product, all 256 DLSettings x RxDelay x CFList x JoinNonce echo product, KEK configurations, all 32 MIC bit flips, malformed bodies. Schedules: all 25 ordered pairs of {join 1.0, join 1.1, rejoin 0, unknown device, bad MIC} through one handler under the cooperative scheduler with scheduling points at every task boundary (verif hook), configuration callback and instrumented package-level access, preemption bound 3 quick / unbounded with a per-pair budget thorough; every response must be byte-identical to the response served alone; happens-before race check.",
+         "2 concurrent requests; logging goes to a discarding logger; the HTTP transport itself (net/http server goroutines) is outside the harness."),
 }
 
 def load_extra():
